@@ -69,17 +69,17 @@ func H_C17_state() {
 // compounding overflow the fixed-point range (exact arithmetic, library overflow panics enabled).
 func H_C17_decay_overflow_X() {
 	id := "C17.decay"
+	maxN := 2 // quick: up to 1 compounding step (n=2 alone costs 210 s); thorough: 8
+	if nd.Thorough() {
+		maxN = 9
+	}
+	n := nd.Choice("n", maxN) // leading choice: one task per step count
 	nd.Overflow(true)
 	rate := nd.DecRange("crate", "0.000000000000000001", "1000000")
 	if rate.GT(math.LegacyOneDec()) {
 		nd.Tag("growth-rate")
 	}
 	e, t0, a := decayState(rate, false, false)
-	maxN := 3 // quick: up to 2 compounding steps; thorough: 8
-	if nd.Thorough() {
-		maxN = 9
-	}
-	n := nd.Choice("n", maxN)
 	t1 := t0.Add(time.Duration(n) * time.Hour)
 	e.WithBlock(t1, 101)
 	_ = a
